@@ -23,6 +23,10 @@ func runC09(p *Prog, r *Report, tier string) {
 		r.Undecided("R-GATE.sanity", "anchor: (*ExportingProcess).SendSet", "pkg/exporter/process.go", "function not found")
 		return
 	}
+	// "carries each value faithfully": the reported length, the prefix written and the bytes copied agree at the 255 boundary
+	// and every element is encoded at the offset its predecessors' lengths add up to (C15's rules, imported)
+	prefixSites(p, r, "R-ERR.prefix")
+	lengthAccounting(p, r, "R-ERR.length")
 	g := p.CallGraph()
 	// writers: functions that invoke Write on connToCollector
 	var writers []*ssa.Function
